@@ -517,6 +517,77 @@ func e2eAppComponent(r *hx.Run) {
 	if thorough {
 		rounds = 8
 	}
+	runRec := func(cb combo, sp appSpec, extra string) {
+		mode := sp.mode
+		tMs := 400 + 100*rng.Intn(2)
+		workers := []int{5, 16, 100}[rng.Intn(3)]
+		args := []string{cb.cmd, "--json", "-t", fmt.Sprintf("%dms", tMs), "-w", fmt.Sprint(workers)}
+		if rng.Intn(3) == 0 {
+			args = []string{cb.cmd, "--json", "-t", fmt.Sprintf("%dms", tMs)} // default worker count
+			workers = 0
+		}
+		if cb.proto == "https" {
+			args = append(args, "--proto", "https")
+		} else if cb.proto == "http" && rng.Intn(2) == 0 {
+			args = append(args, "--proto", "http")
+		}
+		exitDelay := "default"
+		if rng.Intn(2) == 0 {
+			exitDelay = []string{"300ms", "450ms"}[rng.Intn(2)]
+			args = append(args, "--exit-delay", exitDelay)
+		}
+		args = append(args, appArgs(rng, nextDir(), sp)...)
+		variant := rng.Intn(8)
+		farm := newAppFarm(cb.cmd, cb.proto, tlsCfg, variant, sp.targets)
+		res := runSX(nil, 60*time.Second, args...)
+		time.Sleep(10 * time.Millisecond)
+		farm.close()
+		lab.take()
+		obs := ""
+		switch {
+		case res.timedOut:
+			obs = "TIMEOUT"
+		case res.exit != 0:
+			obs = "FAIL exit=" + fmt.Sprint(res.exit) + " " + hx.HexS(lastLine(res.stderr))
+		default:
+			var seen []string
+			x := 0
+			farm.mu.Lock()
+			for _, t := range sp.targets {
+				if t.excl {
+					x += farm.conns[t.key()]
+					delete(farm.conns, t.key())
+				}
+			}
+			done := map[string]bool{}
+			for _, t := range sp.targets {
+				if !t.excl && t.beh == "ok" && !done[t.key()] {
+					done[t.key()] = true
+					seen = append(seen, fmt.Sprintf("%s*%d", t.key(), farm.primary[t.key()]))
+				}
+			}
+			farm.mu.Unlock()
+			sort.Strings(seen)
+			obs = fmt.Sprintf("rec=%s;err=%d;seen=%s;x=%d;exit=0", strings.Join(appRecordItems(res.stdout), ","),
+				appErrorRecords(res.stderr), strings.Join(seen, ","), x)
+		}
+		var tl []string
+		for _, t := range sp.targets {
+			e := "0"
+			if t.excl {
+				e = "1"
+			}
+			tl = append(tl, fmt.Sprintf("%s:%s:%s", t.key(), t.beh, e))
+		}
+		class := fmt.Sprintf("apprec/%s/%s/%s%s", cb.cmd, cb.proto, mode, extra)
+		if len(sp.exclude) > 0 {
+			class += "/excl"
+		}
+		r.Count("apprec:" + cb.cmd)
+		r.Count("mode:" + mode)
+		r.Count(fmt.Sprintf("workers:%d", workers))
+		r.Case(class, "apprec", cb.cmd, cb.proto, fmt.Sprintf("t=%dms;w=%d;exit=%s;v=%d;%s", tMs, workers, exitDelay, variant, mode), strings.Join(tl, ","), obs)
+	}
 	for round := 0; round < rounds; round++ {
 		for ci, cb := range combos {
 			mode := []string{"net", "pairs", "addrs"}[(round+ci)%3]
@@ -608,75 +679,33 @@ func e2eAppComponent(r *hx.Run) {
 					sp.targets[i].beh = []string{"ok", "tarpit"}[rng.Intn(2)]
 				}
 			}
-			tMs := 400 + 100*rng.Intn(2)
-			workers := []int{5, 16, 100}[rng.Intn(3)]
-			args := []string{cb.cmd, "--json", "-t", fmt.Sprintf("%dms", tMs), "-w", fmt.Sprint(workers)}
-			if rng.Intn(3) == 0 {
-				args = []string{cb.cmd, "--json", "-t", fmt.Sprintf("%dms", tMs)} // default worker count
-				workers = 0
-			}
-			if cb.proto == "https" {
-				args = append(args, "--proto", "https")
-			} else if cb.proto == "http" && rng.Intn(2) == 0 {
-				args = append(args, "--proto", "http")
-			}
-			exitDelay := "default"
-			if rng.Intn(2) == 0 {
-				exitDelay = []string{"300ms", "450ms"}[rng.Intn(2)]
-				args = append(args, "--exit-delay", exitDelay)
-			}
-			args = append(args, appArgs(rng, nextDir(), sp)...)
-			variant := rng.Intn(8)
-			farm := newAppFarm(cb.cmd, cb.proto, tlsCfg, variant, sp.targets)
-			res := runSX(nil, 60*time.Second, args...)
-			time.Sleep(10 * time.Millisecond)
-			farm.close()
-			lab.take()
-			obs := ""
-			switch {
-			case res.timedOut:
-				obs = "TIMEOUT"
-			case res.exit != 0:
-				obs = "FAIL exit=" + fmt.Sprint(res.exit) + " " + hx.HexS(lastLine(res.stderr))
-			default:
-				var seen []string
-				x := 0
-				farm.mu.Lock()
-				for _, t := range sp.targets {
-					if t.excl {
-						x += farm.conns[t.key()]
-						delete(farm.conns, t.key())
-					}
-				}
-				done := map[string]bool{}
-				for _, t := range sp.targets {
-					if !t.excl && t.beh == "ok" && !done[t.key()] {
-						done[t.key()] = true
-						seen = append(seen, fmt.Sprintf("%s*%d", t.key(), farm.primary[t.key()]))
-					}
-				}
-				farm.mu.Unlock()
-				sort.Strings(seen)
-				obs = fmt.Sprintf("rec=%s;err=%d;seen=%s;x=%d;exit=0", strings.Join(appRecordItems(res.stdout), ","),
-					appErrorRecords(res.stderr), strings.Join(seen, ","), x)
-			}
-			var tl []string
-			for _, t := range sp.targets {
-				e := "0"
-				if t.excl {
-					e = "1"
-				}
-				tl = append(tl, fmt.Sprintf("%s:%s:%s", t.key(), t.beh, e))
-			}
-			class := fmt.Sprintf("apprec/%s/%s/%s", cb.cmd, cb.proto, mode)
-			if len(sp.exclude) > 0 {
-				class += "/excl"
-			}
-			r.Count("apprec:" + cb.cmd)
-			r.Count("mode:" + mode)
-			r.Count(fmt.Sprintf("workers:%d", workers))
-			r.Case(class, "apprec", cb.cmd, cb.proto, fmt.Sprintf("t=%dms;w=%d;exit=%s;v=%d;%s", tMs, workers, exitDelay, variant, mode), strings.Join(tl, ","), obs)
+			runRec(cb, sp, "")
 		}
+	}
+
+	// more failed probes in one second than any log sampler or the 100-slot error buffer lets through unnoticed:
+	// one address, some hundred ports, nothing listens on most of them
+	nMass := 1
+	if thorough {
+		nMass = 6
+	}
+	for i := 0; i < nMass; i++ {
+		cb := combos[rng.Intn(len(combos))]
+		var sp appSpec
+		sp.mode = "net"
+		sp.ones = 32
+		sp.base = uint32(127<<24) | uint32(1+rng.Intn(200))<<16 | uint32(rng.Intn(250))<<8 | uint32(1+rng.Intn(250))
+		p0 := 20000 + rng.Intn(20000)
+		n := 250 + rng.Intn(250)
+		for p := 0; p < n; p++ {
+			sp.ports = append(sp.ports, p0+p)
+			beh := "refused"
+			if rng.Intn(40) == 0 {
+				beh = "ok"
+			}
+			sp.targets = append(sp.targets, appTarget{ip: sp.base, port: p0 + p, beh: beh})
+		}
+		runRec(cb, sp, "/mass")
 	}
 
 	// ------------------------------------------------------------ apptime, short timeouts
